@@ -128,6 +128,38 @@ pub fn lockstep(g: &Grammar, l: &Lock, via_file: Option<&std::path::Path>) -> V 
         },
         Err(_) => None,
     };
+    // a damaged A2ML block: the diagnostic that names it (strict: the error, non-strict: the log entry) carries a line of the
+    // block - the A2ML text is one token that begins behind the tag of /begin A2ML and ends in front of /end
+    if l.class.starts_with("a2ml-damaged-") {
+        if let Some((first, last)) = l.elem_lines {
+            let mut check = |e: &A2lError, mode: &str| -> Option<V> {
+                if !format!("{e:?}").contains("A2mlError") {
+                    return None;
+                }
+                let (f, ln) = file_line(e)?;
+                if ln < first || ln >= last {
+                    return Some(V::Viol("R5-line", format!("{mode}: the damaged A2ML block spans lines {first}..{last} (end tag at {last}), the diagnostic names line {ln}: {e}")));
+                }
+                if f != expect_file {
+                    return Some(V::Viol("R5-file", format!("{mode}: diagnostic names file {f:?}, expected {expect_file:?}: {e}")));
+                }
+                outcome.push_str(",a2ml-line-checked");
+                None
+            };
+            if let Loaded::Err(e) = &strict {
+                if let Some(v) = check(e, "strict") {
+                    return v;
+                }
+            }
+            if let Loaded::Ok(_, log) = &lax {
+                for e in log {
+                    if let Some(v) = check(e, "non-strict") {
+                        return v;
+                    }
+                }
+            }
+        }
+    }
     if let Some(want) = located {
         let mut seen = 0;
         let mut check = |e: &A2lError, mode: &str| -> Option<V> {
@@ -505,15 +537,23 @@ pub fn build(g: &Grammar, thorough: bool) -> Vec<Lock> {
     {
         let good = "/begin A2ML\nblock \"IF_DATA\" struct { uint; };\n/end A2ML\n";
         for (n, bad) in [("unclosed-brace", "block \"IF_DATA\" struct { uint;"), ("unknown-type", "block \"IF_DATA\" strukt { uint; };"), ("no-if-data", "struct S { uint; };"), ("empty", ""), ("stray-token", "block \"IF_DATA\" struct { uint; }; }")] {
-            for layout in 0..3 {
+            for layout in 0..6 {
                 let m = |name: &str, body: &str| format!("/begin MODULE {name} \"\"\n{body}/end MODULE\n");
-                let badblock = format!("/begin A2ML\n{bad}\n/end A2ML\n");
+                // (layouts 4 and 5: the text spread over more lines, blank lines in front of the end tag)
+                let badblock = if layout >= 4 { format!("/begin A2ML\n\n{}\n\n\n/end A2ML\n", bad.replace(' ', "\n")) } else { format!("/begin A2ML\n{bad}\n/end A2ML\n") };
                 let mods = match layout {
                     0 => format!("{}{}", m("m1", good), m("m2", &badblock)),
                     1 => format!("{}{}{}", m("m1", good), m("m2", ""), m("m3", &badblock)),
-                    _ => format!("{}{}", m("m1", &badblock), m("m2", good)),
+                    2 => format!("{}{}", m("m1", &badblock), m("m2", good)),
+                    3 | 4 => m("m1", &badblock),
+                    _ => format!("{}{}", m("m1", good), m("m2", &format!("/begin MEASUREMENT x \"\" UBYTE NO_COMPU_METHOD 0 0 0 255\n/end MEASUREMENT\n{badblock}"))),
                 };
-                out.push(Lock { text: format!("ASAP2_VERSION 1 71\n/begin PROJECT p \"\"\n{mods}/end PROJECT\n"), label: format!("damaged A2ML block ({n}) in layout {layout} next to a valid one in another module"), class: format!("a2ml-damaged-{n}"), fault_tok: None, r5: false, elem_lines: None });
+                let text = format!("ASAP2_VERSION 1 71\n/begin PROJECT p \"\"\n{mods}/end PROJECT\n");
+                // the lines of the damaged block: from its /begin to its /end (the A2ML text is one token that begins behind the tag)
+                let at = text.find(&badblock).unwrap();
+                let first = text[..at].matches('\n').count() as u32 + 1;
+                let last = first + badblock.trim_end().matches('\n').count() as u32;
+                out.push(Lock { text, label: format!("damaged A2ML block ({n}) in layout {layout} next to a valid one in another module"), class: format!("a2ml-damaged-{n}"), fault_tok: None, r5: false, elem_lines: Some((first, last)) });
             }
         }
     }
